@@ -107,12 +107,11 @@ Theorem mismatch_meets_spec : forall c, c_fn c = FMismatch -> in_domain c = true
 Proof.
   intros c F Hd. assert (Hb := Hd). split_dom Hb D2 D1 D0 D. get_bounds Hb B1 B2.
   rewrite F in D. cbn in D.
-  apply andb_true_iff in D as [D G]. apply andb_true_iff in D as [D S2]. apply andb_true_iff in D as [D S1].
-  apply andb_true_iff in D as [Bb T].
+  apply andb_true_iff in D as [D G]. apply andb_true_iff in D as [Bb T].
   unfold bounds2_ok in Bb. apply andb_true_iff in Bb as [C1 C2]. apply Nat.leb_le in C1, C2.
   unfold m_call, s_call, m_mismatch, s_mismatch. rewrite F.
-  rewrite (seq_to_list_ok (c_seq c) (c_start c) (c_end c) B1 B2 S1).
-  rewrite (seq_to_list_ok (c_seq2 c) (c_start2 c) (c_end2 c) C1 C2 S2).
+  rewrite (seq_to_list_ok (c_seq c) (c_start c) (c_end c) B1 B2).
+  rewrite (seq_to_list_ok (c_seq2 c) (c_start2 c) (c_end2 c) C1 C2).
   fold (s_start c). fold (s_start2 c).
   change (match c_end c with Some n => n | None => length (elems (c_seq c)) end) with (s_end c (elems (c_seq c))).
   change (match c_end2 c with Some n => n | None => length (elems (c_seq2 c)) end) with (s_end2 c (elems (c_seq2 c))).
